@@ -3,6 +3,7 @@ from .datatypes import Mesh, PointCloud, PolyLine, SurfaceMesh, VolumeMesh
 from .io.io import read_by_extension, write_by_extension
 
 import numpy as np
+from ..geometry import Vec
 
 def _instanciate_raw_mesh_data(mesh_data : RawMeshData, dim : int = None) -> Mesh:
     mesh_data.prepare()
@@ -187,7 +188,7 @@ def merge(mesh_list : list) -> Mesh:
     merged = RawMeshData()
     vertex_offset = 0
     for to_merge in mesh_list:
-        merged.vertices += to_merge.vertices
+        merged.vertices += [Vec(v).copy() for v in to_merge.vertices] # the merged mesh owns its coordinates
         if hasattr(to_merge, "edges") : 
             merged.edges += [tuple((vertex_offset+u for u in e)) for e in to_merge.edges]
         if hasattr(to_merge, "faces") : 
